@@ -226,7 +226,10 @@ def spec_get_comment(proto_file, path, indent=4):
                 line.replace("\\", "\\\\").replace('"""', '\\"\\"\\"') for line in lines
             ]
             if lines and lines[-1].endswith('"'):
-                lines[-1] = lines[-1][:-1] + '\\"'
+                body = lines[-1][:-1]
+                # (reference copy updated with the repository's fix a809662: a quote already escaped is left alone)
+                if (len(body) - len(body.rstrip("\\"))) % 2 == 0:
+                    lines[-1] = body + '\\"'
             if len(lines) == 1 and len(lines[0]) < 79 - indent - 6:
                 return f'{pad}"""{lines[0]}"""'
             else:
